@@ -197,6 +197,7 @@ fn c06(seed: u64, tier: &str, thorough: bool) -> CheckPlan {
         jobs.push(job("C06", "corpus", derive(seed, "c06corpus", 1), tier, json!({"script": id, "max_points": if thorough { 150 } else { 20 }})));
     }
     jobs.push(job("C06", "errors", seed, tier, json!({})));
+    jobs.push(job("C06", "callback-errors", seed, tier, json!({})));
     CheckPlan {
         property: "C06".into(),
         tier: tier.into(),
@@ -216,7 +217,7 @@ fn c06(seed: u64, tier: &str, thorough: bool) -> CheckPlan {
         ],
         opts: SupOpts::default(),
         required_probes: vec!["trip_size".into(), "trip_calls".into(), "trip_depth".into(), "trip_recursion".into(), "trip_search".into(), "trip_time".into(), "trip_writer".into(),
-            "rerun_after_violation_succeeded".into(), "eintr_transparent".into(), "short_write_transparent".into(), "error_cases".into()],
+            "rerun_after_violation_succeeded".into(), "eintr_transparent".into(), "short_write_transparent".into(), "error_cases".into(), "callback_error_cases".into()],
         exhaustive: false,
         extra: json!({"carriers": n_car, "catchers": n_cat}),
     }
@@ -259,7 +260,7 @@ fn c11(seed: u64, tier: &str, thorough: bool) -> CheckPlan {
             "the order in which a template reaches its effect sites is declared in the template and cross-checked against the reference run".into(),
         ],
         opts: SupOpts::default(),
-        required_probes: vec!["refused_site".into(), "refused_at_instantiate".into(), "unset_permission_default_used".into(), "write_fault_to_output_failure".into(),
+        required_probes: vec!["refused_site".into(), "refused_at_instantiate".into(), "unset_permission_default_used".into(), "permission_changed_after_being_set".into(), "write_fault_to_output_failure".into(),
             "soft_write_fault_transparent".into(), "clock_fault_runs".into(), "rng_fault_runs".into()],
         exhaustive: false,
         extra: json!({"sites": SITES.len(), "carriers": CARRIERS.len()}),
